@@ -474,6 +474,8 @@ type ReadCase struct {
 	SimCatalog bool `json:"sim_catalog,omitempty"`
 	KeepMaxID  bool `json:"keep_max_id,omitempty"`
 	BuildTree  bool `json:"-"`
+	// Seekable offers the reader an io.Seeker as well (whole delivery only).
+	Seekable bool `json:"seekable,omitempty"`
 	// Cat, when set, is used as is (a shared catalog object of the concurrent scenario) instead of Catalog.
 	Cat ion.Catalog `json:"-"`
 }
@@ -512,7 +514,11 @@ func RunReadSrc(c ReadCase, src *sim.Source, yield func(string)) (out *Outcome) 
 		if cat == nil {
 			cat = BuildCatalog(c.Catalog, c.SimCatalog, yield)
 		}
-		r = ion.NewReaderCat(src, cat)
+		if c.Seekable {
+			r = ion.NewReaderCat(sim.SeekSource{Source: src}, cat)
+		} else {
+			r = ion.NewReaderCat(src, cat)
+		}
 		w.r = r
 		nodes := w.level(0, -1)
 		if w.build {
